@@ -75,7 +75,7 @@ def differential_path(P, Lex, tpl, want=("tree", "accept")):
             v["toks"] = toks
             v["what"] = fill(v["what"], toks)
             if v["sig"] is None:
-                v["sig"] = "rejected-valid:" + _err_sig(v.pop("msg"), toks)
+                v["sig"] = "rejected-valid:" + _err_sig(v.pop("msg"), toks, impl[2])
         rec["viol"] = [v for v in viol if v["kind"] in _kinds(want)]
         if rec["viol"]:
             rec["cls"] += "-VIOL"
@@ -113,18 +113,25 @@ def _sig_of(d):
     return "/".join(tags[-3:])
 
 
-def _err_sig(msg, toks):
-    """kind of message + (type of the token before the reported one, type of the reported token);
-    with concrete coordinates the column is the token index + 1"""
+def _err_sig(msg, toks, parser):
+    """kind of message + the types of the last consumed token and of the token the parser was looking at
+    when it gave up (from the parser's own token cursor)"""
     import re
 
-    m = re.match(r"^[^:]*:(\d+):(\d+): (.*)$", msg, re.S)
-    if not m:
-        return re.sub("\x01[^\x02]*\x02", "<tok>", msg.split(": ", 1)[-1])[:40]
-    col = int(m.group(2))
-    what = m.group(3).split(":")[0].split(" ")[0]
-    cur = toks[col - 1][0] if 0 < col <= len(toks) else "?"
-    prev = toks[col - 2][0] if 1 < col <= len(toks) + 1 else "^"
+    what = msg.split(": ", 1)[-1]
+    what = re.sub("\x01[^\x02]*\x02", "", what).split(":")[0].strip().split(" ")
+    what = " ".join(what[:2])
+    try:
+        idx = parser._tokens._index
+    except Exception:
+        idx = None
+    if idx is None:
+        return what
+    m = re.match(r"^[^:]*:(\d+):(\d+): ", msg)
+    if m:
+        idx = int(m.group(2)) - 1  # concrete coordinates: column = token index + 1
+    cur = toks[idx][0] if 0 <= idx < len(toks) else "EOF"
+    prev = toks[idx - 1][0] if 0 < idx <= len(toks) else "^"
     return f"{what}:{prev},{cur}"
 
 
